@@ -6,7 +6,7 @@ META = {
         "Three layers. (1) E1 proof: VCs generated from the working-tree source of each method (inspect.getsource + ast on every run) against sidecar "
         "contracts, discharged by z3 over unbounded integers with the axiomatised theory GF2POLY: BinaryPolynomial.degree, __mul__, __mod__, div, gcd, lcm, "
         "__eq__, __hash__ for operands of any degree; per field m: FiniteBifield.__eq__/__call__/primitive_element, FiniteBifieldElement.__add__, __mul__, "
-        "__pow__, inverse for all elements and all exponents. (2) ground: for every m in 1..16 the tabulated modulus has degree m and no divisor of degree "
+        "__pow__, inverse, trace, conjugates for all elements and all exponents. (2) ground: for every m in 1..16 the tabulated modulus has degree m and no divisor of degree "
         "<= m/2, x has multiplicative order exactly 2^m-1, a^(2^m-1)=1 for every non-zero residue. (3) bounded cross-checks (never counted as proved): all "
         "polynomial pairs below degree 8, all pairs/triples of field elements for small m, power/trace/conjugates/minimal polynomial of every element."
     ),
@@ -30,7 +30,8 @@ META = {
     ],
     "out_of_reach": [
         "FiniteBifieldElement.minimal_polynomial: brute-force search over 2^d masks with nested data-dependent loops and a hasattr cache - outside E1; 'irreducible polynomial of least degree vanishing at the element' is checked only by the bounded layer (every element for m <= 6 quick / m <= 8 thorough: equality with the independently expanded product over the conjugacy class, irreducibility by trial division, vanishing, exhaustive absence of a lower-degree annihilator for m <= 6)",
-        "FiniteBifieldElement.trace / conjugates, BinaryPolynomial.evaluate / derivative / to_coefficient_list: no E1 contract yet (list-valued results and recursively specified sums need the sequence fragment); covered by the bounded layer only",
+        "BinaryPolynomial.evaluate / derivative / to_coefficient_list: no E1 contract yet (unbounded list results and recursively specified sums need the sequence fragment and further theory symbols); covered by the bounded layer only (all polynomials below degree 8)",
+        "FiniteBifieldElement.trace: E1 proves result = parity of xor_{i<m} a^(2^i); that this sum itself lies in {0,1} (the trace maps into GF(2)) is field theory and is only cross-checked in the bounded layer",
         "the field axioms for all elements follow from L-field + the ground irreducibility obligations, not from an SMT proof over all triples; all pairs (m <= 5 quick, m <= 8 thorough) and all triples (m <= 4 quick, m <= 5 thorough) are cross-checked in the bounded layer",
         "FiniteBifield._init_log_exp_tables computes its tables with integer arithmetic mod 2^m; no operation reads them (dead code, not verified)",
     ],
